@@ -54,6 +54,7 @@ NoMeth == 0
 Ambig == 0 - 1
 Config == 0 - 2
 Broken == 0 - 3     \* the generated entry point was made from an empty analysis ("f() takes 0 positional arguments")
+\* @type: (Int -> Int) => Int;
 Answer(b) ==
   IF \A m \in Meths : b[m] = 0 THEN NoMeth
   ELSE LET top == CHOOSE m \in Meths : b[m] > 0 /\ \A o \in Meths : b[o] > 0 => o <= m IN
@@ -63,7 +64,7 @@ Correct == IF regd = {} THEN NoMeth ELSE CHOOSE m \in regd : \A o \in regd : o <
 Buildable == BadM \notin regd
 
 Init ==
-  /\ entry = "boot" /\ compiled = FALSE /\ cur = 0 /\ gmap = 0 /\ tbl = <<>> /\ lockh = 0
+  /\ entry = "boot" /\ compiled = FALSE /\ cur = 0 /\ gmap = 0 /\ tbl = [j \in 1..0 |-> Bag0] /\ lockh = 0
   /\ regd = Meths
   /\ pc = [t \in Threads |-> "idle"] /\ k = [t \in Threads |-> 0]
   /\ res = [t \in Threads |-> <<>>] /\ todo = [t \in Threads |-> CallsPer]
@@ -107,7 +108,7 @@ NewMap(t) ==
   /\ pc[t] = "newmap"
   /\ ntbl' = ntbl + 1
   /\ cur' = ntbl + 1
-  /\ tbl' = [j \in 1..(ntbl + 1) |-> IF j = ntbl + 1 THEN Bag0 ELSE tbl[j]]
+  /\ tbl' = [j \in DOMAIN tbl \cup {ntbl + 1} |-> IF j = ntbl + 1 THEN Bag0 ELSE tbl[j]]
   /\ pc' = [pc EXCEPT ![t] = "analyze"]
   /\ UNCHANGED <<entry, compiled, gmap, lockh, regd, k, res, todo, nfail, an>>
 
